@@ -24,6 +24,9 @@ PROPERTY = {
         Harness("c11_shard_info_new", "C11.shard_info_new", "PROVED-C",
                 "ShardInfo::new: Ok <=> shard < nr_shards, fields preserved; get_sharder copies them",
                 functions=[F + "ShardInfo::new", F + "ShardInfo::get_sharder"]),
+        Harness("c11_port_range_new", "C11.port_range_new", "PROVED-C",
+                "ShardAwarePortRange::new: Ok <=> non-empty range starting at >= 1024, stored unchanged - it establishes valid_range, the precondition of the port contracts; EPHEMERAL_PORT_RANGE / default() are valid (every start, end)",
+                functions=[F + "ShardAwarePortRange::new"]),
         Harness("c11_search_lowest_port", "C11.search.lowest_port", "BOUNDED", "counterexample search for the lowest-port contract (proved by Verus)", bound="search only, 300 s", search_only=True, timeout=300, functions=[F + "Sharder::calculate_lowest_port_for_shard_in_range"]),
         Harness("c11_search_shard_of_source_port", "C11.search.shard_of_source_port", "BOUNDED", "counterexample search for shard_of_source_port's contract (proved by Verus)", bound="search only, 300 s", search_only=True, timeout=300, functions=[F + "Sharder::shard_of_source_port"]),
         Harness("c11_spec_shard_sanity", "C11.spec_shard.sanity", "PROVED-C",
